@@ -17,6 +17,13 @@ def run(rep):
     # a source goal never becomes the compiler's internal $CUTIF marker, whose argument is pasted as a label (visitTermpredicate)
     control.parse_deductive(rep, control.PARSE_BODY + control.PARSE_CLAUSE)
     control.text_deductive(rep)
+    # "names of clause-local variables": every variable name of a clause is bound in the emitted function before it is read - the
+    # `variables` properties report every variable (also one only in a branch), compile_function_body declares each reported
+    # one that is not a parameter alias - so no Prolog-chosen name is ever read as a global of the load context
+    control.astvars_deductive(rep)
+    control.clause_deductive(rep, targets=['yp_generator.YPPrologCompiler.' + f for f in (
+        'compile_function_body', 'filter_free_variables', 'get_free_variables', 'compile_free_variable_declarations',
+        'compile_variable_declaration', 'compile_clause_head_variable_arguments', 'find_clause_head_variable_arguments')], literal_lemma=False)
     q = rep.tier == 'quick'
     fw.standin(rep, 's_c12.py', ['run', rep.seed, 1000 if q else 6000],
                'hostile atoms in every syntactic position: AST whitelist of the output, names, call targets, string constants; hostile run-time queries',
